@@ -8,4 +8,6 @@ require (
 	pgregory.net/rapid v1.3.0
 )
 
+require github.com/ulikunitz/xz v0.5.10 // indirect
+
 replace github.com/biogo/hts => /repo
